@@ -129,6 +129,9 @@ pub fn check_case(c: &Case, choices: &[u32], acc: &mut Acc) {
     let levels = opt_levels(&ty);
     // number of optional wrappers the type text must carry in opt-carrying backends
     let type_levels = levels + if bare_default && levels == 0 { 1 } else { 0 };
+    // Go with `no_pointer_slice`: the innermost Option around a Vec adds no pointer (documented: a nil slice is the absent value)
+    let go_slice_exempt = c.lang == Lang::Go && cfg.go_no_pointer_slice && c.base == "Vec<u32>" && levels >= 1;
+    let type_levels = if go_slice_exempt { type_levels - 1 } else { type_levels };
     acc.runs += 1;
     let res = refmodel::run_single(&file, c.lang, &cfg);
     let tag = format!("{}|{}", c.wrapper, c.default);
@@ -218,6 +221,8 @@ pub fn check_case(c: &Case, choices: &[u32], acc: &mut Acc) {
         // Swift has no separate marker: the property type is optional
         Lang::Swift => matches!(sty, TT::Opt(_)),
         // aliases / payloads in the opt-carrying backends only have the type
+        // (with Go's no_pointer_slice a single Option around a Vec leaves no trace in a bare type: nothing to judge)
+        _ if c.position != "struct-field" && c.position != "variant-field" && go_slice_exempt && levels == 1 => expect_optional,
         _ if c.position == "alias" && c.lang != Lang::TypeScript => matches!(sty, TT::Opt(_)),
         _ if c.position == "variant-payload" && c.lang != Lang::TypeScript => matches!(sty, TT::Opt(_)),
         _ => sopt.optional,
